@@ -32,6 +32,7 @@ import (
 	"go/token"
 	"os"
 	"path/filepath"
+	"sort"
 	"strconv"
 	"strings"
 )
@@ -178,12 +179,14 @@ const modPath = "github.com/markusressel/fan2go/"
 
 // ---------------------------------------------------------------- the record of operations
 type op struct {
-	goText string   // call text (function part) or field selector text, after alias resolution
-	lean   string   // field of CtlOps
-	args   []string // lean types of the arguments
-	ret    string   // lean type of the result ("Unit" for none)
-	field  bool     // a receiver field: `lean` is the getter, "set_"+name the setter (when settable)
-	set    bool
+	goText     string   // call text (function part) or field selector text, after alias resolution
+	lean       string   // field of CtlOps
+	args       []string // lean types of the arguments
+	ret        string   // lean type of the result ("Unit" for none)
+	field      bool     // a receiver field: `lean` is the getter, "set_"+name the setter (when settable)
+	set        bool
+	ignoreArgs bool // the (handle) arguments of the call are not passed on
+	inPlace    bool // a statement `f(x)` that updates the slice variable x: `x := (← ops.f x)`
 }
 
 type group struct {
@@ -193,9 +196,14 @@ type group struct {
 	handles  []string          // receiver paths that are interface handles (`fan := f.fan` makes `fan` an alias)
 	intTypes []string          // named integer types of the package (conversions are the identity)
 	errs     map[string]string // named error values / error constructors (by text prefix) -> error string
-	binders  map[string]string // `h, _ := <text>` statements that bind an interface handle: text -> handle name (DECLARED)
-	ops      []op
-	targets  []target
+	binders  map[string]string // `h, _ := <text>` / `h := <text>` statements that bind an interface handle: text -> handle name (DECLARED)
+	skips    map[string]string // statements (by text prefix) left out of the translation, with the DECLARED reason
+	// `switch x := <handle>.(type)`: concrete type -> tag; the record gets an operation `typeTag_<handle>` and inside the
+	// cases x stands for the handle `<x>T`
+	typeSwitch map[string]int
+	hbinders   map[string]string // `h, err := <call>(...)`: call (function text) whose FIRST result is a handle and whose operation returns only the error
+	ops        []op
+	targets    []target
 }
 
 var cur *group
@@ -339,6 +347,109 @@ func init() {
 				{name: "FileFan_IsPwmAuto", recv: "FileFan", fn: "IsPwmAuto"},
 				{name: "FileFan_Supports", recv: "FileFan", fn: "Supports"},
 			}},
+		// the start-up analysis of the controller: which PWM map is used, the sweep that detects it, the supported inputs
+		&group{name: "InitOps", dir: "internal/controller", recvPath: "f", handles: []string{"f.fan", "f.persistence"},
+			skips: map[string]string{"time.Sleep(pwmSetGetDelay)": "only lets time pass (the device model answers at once)"},
+			ops: []op{
+				{goText: "f.fan.Supports", lean: "fan_Supports", args: []string{"Int"}, ret: "Bool"},
+				{goText: "f.fan.GetPwm", lean: "fan_GetPwm", ret: "Int × Option String"},
+				{goText: "f.fan.SetPwm", lean: "fan_SetPwm", args: []string{"Int"}, ret: "Option String"},
+				{goText: "f.fan.GetStartPwm", lean: "fan_GetStartPwm", ret: "Int"},
+				{goText: "f.fan.GetId", lean: "fan_GetId", ret: "String"},
+				{goText: "trySetManualPwm", lean: "trySetManualPwm", ret: "Option String", ignoreArgs: true},
+				{goText: "f.persistence.LoadFanPwmMap", lean: "persistence_LoadFanPwmMap", args: []string{"String"}, ret: "Option (List (Int × Int)) × Option String"},
+				{goText: "f.persistence.SaveFanPwmMap", lean: "persistence_SaveFanPwmMap", args: []string{"String", "Option (List (Int × Int))"}, ret: "Option String"},
+				{goText: "util.InterpolateLinearlyInt", lean: "interpolateLinearlyInt", args: []string{"Option (List (Int × Int))", "Int", "Int"}, ret: "Option (List (Int × Int))"},
+				{goText: "sort.Ints", lean: "sortInts", args: []string{"Array Int"}, ret: "Array Int", inPlace: true},
+				{goText: "typeTag:f.fan", lean: "typeTag_fan", ret: "Int"},
+				{goText: "fanT.Config.PwmMap", lean: "fan_Config_PwmMap", ret: "Option (List (Int × Int))", field: true},
+				{goText: "f.pwmMap", lean: "pwmMap", ret: "Option (List (Int × Int))", field: true, set: true},
+				{goText: "f.pwmValuesWithDistinctTarget", lean: "pwmValuesWithDistinctTarget", ret: "Array Int", field: true, set: true},
+			},
+			typeSwitch: map[string]int{"*fans.HwMonFan": 0, "*fans.CmdFan": 1, "*fans.FileFan": 2},
+			targets: []target{
+				{name: "init_applyPwmMapping", recv: "DefaultFanController", fn: "applyPwmMapping"},
+				{name: "init_computePwmMapAutomatically", recv: "DefaultFanController", fn: "computePwmMapAutomatically", alias: map[string]string{"fan": "f.fan"}},
+				{name: "init_computePwmMapLocked", recv: "DefaultFanController", fn: "computePwmMapLocked"},
+				{name: "init_updateDistinctPwmValues", recv: "DefaultFanController", fn: "updateDistinctPwmValues"},
+			}},
+		// command fans
+		&group{name: "CmdFanOps", dir: "internal/fans", recvPath: "fan", intTypes: []string{"ControlMode", "FeatureFlag"},
+			binders: map[string]string{"fan.Config.Cmd.GetRpm": "rpmConf", "fan.Config.Cmd.GetPwm": "pwmConf", "fan.Config.Cmd.SetPwm": "setConf"},
+			ops: []op{
+				{goText: "util.SafeCmdExecution", lean: "safeCmdExecution", args: []string{"String", "Array String", "Int"}, ret: "String × Option String"},
+				{goText: "strconv.ParseFloat", lean: "parseFloat", args: []string{"String", "Int"}, ret: "F64 × Option String"},
+				{goText: "strings.ReplaceAll", lean: "replaceAll", args: []string{"String", "String", "String"}, ret: "String"},
+				{goText: "strconv.Itoa", lean: "itoa", args: []string{"Int"}, ret: "String"},
+				{goText: "fan.Config.Cmd.GetRpm", lean: "Config_Cmd_GetRpm", ret: "Option Unit", field: true},
+				{goText: "fan.Config.Cmd.GetPwm", lean: "Config_Cmd_GetPwm", ret: "Option Unit", field: true},
+				{goText: "rpmConf.Exec", lean: "rpmConf_Exec", ret: "String", field: true},
+				{goText: "rpmConf.Args", lean: "rpmConf_Args", ret: "Array String", field: true},
+				{goText: "pwmConf.Exec", lean: "pwmConf_Exec", ret: "String", field: true},
+				{goText: "pwmConf.Args", lean: "pwmConf_Args", ret: "Array String", field: true},
+				{goText: "setConf.Exec", lean: "setConf_Exec", ret: "String", field: true},
+				{goText: "setConf.Args", lean: "setConf_Args", ret: "Array String", field: true},
+				{goText: "fan.Config.NeverStop", lean: "Config_NeverStop", ret: "Bool", field: true},
+				{goText: "fan.Pwm", lean: "Pwm", ret: "Int", field: true, set: true},
+				{goText: "fan.Rpm", lean: "Rpm", ret: "Int", field: true, set: true},
+			},
+			targets: []target{
+				{name: "CmdFan_Supports", recv: "CmdFan", fn: "Supports"},
+				{name: "CmdFan_GetStartPwm", recv: "CmdFan", fn: "GetStartPwm"},
+				{name: "CmdFan_SetStartPwm", recv: "CmdFan", fn: "SetStartPwm"},
+				{name: "CmdFan_GetMinPwm", recv: "CmdFan", fn: "GetMinPwm"},
+				{name: "CmdFan_SetMinPwm", recv: "CmdFan", fn: "SetMinPwm"},
+				{name: "CmdFan_GetMaxPwm", recv: "CmdFan", fn: "GetMaxPwm"},
+				{name: "CmdFan_SetMaxPwm", recv: "CmdFan", fn: "SetMaxPwm"},
+				{name: "CmdFan_GetRpm", recv: "CmdFan", fn: "GetRpm"},
+				{name: "CmdFan_GetRpmAvg", recv: "CmdFan", fn: "GetRpmAvg"},
+				{name: "CmdFan_SetRpmAvg", recv: "CmdFan", fn: "SetRpmAvg"},
+				{name: "CmdFan_GetPwm", recv: "CmdFan", fn: "GetPwm"},
+				{name: "CmdFan_SetPwm", recv: "CmdFan", fn: "SetPwm"},
+				{name: "CmdFan_AttachFanRpmCurveData", recv: "CmdFan", fn: "AttachFanRpmCurveData"},
+				{name: "CmdFan_UpdateFanRpmCurveValue", recv: "CmdFan", fn: "UpdateFanRpmCurveValue"},
+				{name: "CmdFan_ShouldNeverStop", recv: "CmdFan", fn: "ShouldNeverStop"},
+				{name: "CmdFan_GetPwmEnabled", recv: "CmdFan", fn: "GetPwmEnabled"},
+				{name: "CmdFan_SetPwmEnabled", recv: "CmdFan", fn: "SetPwmEnabled"},
+				{name: "CmdFan_IsPwmAuto", recv: "CmdFan", fn: "IsPwmAuto"},
+			}},
+		// the permission check in front of every external command (C18)
+		&group{name: "PermOps", dir: "internal/util", recvPath: "", intTypes: []string{"os.FileMode"},
+			errs: map[string]string{"errors.New(\"file not found\")": "file not found", "errors.New(\"owner is not root\")": "owner is not root",
+				"errors.New(\"group is not root but has write permission\")": "group is not root but has write permission",
+				"errors.New(\"others have write permission\")":               "others have write permission"},
+			binders:  map[string]string{"info.Sys().(*syscall.Stat_t)": "stat"},
+			hbinders: map[string]string{"os.Stat": "info"},
+			ops: []op{
+				{goText: "filepath.EvalSymlinks", lean: "evalSymlinks", args: []string{"String"}, ret: "String × Option String"},
+				{goText: "os.Stat", lean: "stat", args: []string{"String"}, ret: "Option String"},
+				{goText: "info.Mode", lean: "info_Mode", ret: "Int"},
+				{goText: "stat.Uid", lean: "stat_Uid", ret: "Int", field: true},
+				{goText: "stat.Gid", lean: "stat_Gid", ret: "Int", field: true},
+			},
+			targets: []target{
+				{name: "util_CheckFilePermissionsForExecution", fn: "CheckFilePermissionsForExecution"},
+			}},
+		// running an external command (C18, C19)
+		&group{name: "ExecOps", dir: "internal/util", recvPath: "", intTypes: []string{"time.Duration"},
+			errs: map[string]string{"fmt.Errorf(\"cannot execute": "cannot execute", "context.DeadlineExceeded": "context deadline exceeded"},
+			skips: map[string]string{
+				"ctx, cancel := context.WithTimeout(context.Background(), timeout)": "the deadline `timeout` is part of the operation `cmd.Output`",
+				"defer cancel()": "releases the context's timer",
+				"cmd := exec.CommandContext(ctx, executable, args...)": "the command and its arguments are part of the operation `cmd.Output`",
+				"cmd.WaitDelay = cmdWaitDelay":                         "the wait delay is part of the operation `cmd.Output`",
+				"var exitError *exec.ExitError":                        "only used to choose the log text",
+				"if errors.As(err, &exitError) {":                      "both branches only log",
+			},
+			ops: []op{
+				{goText: "CheckFilePermissionsForExecution", lean: "checkPerm", args: []string{"String"}, ret: "Bool × Option String"},
+				{goText: "cmd.Output", lean: "cmdOutput", ret: "String × Option String"},
+				{goText: "ctx.Err", lean: "ctxErr", ret: "Option String"},
+				{goText: "strings.Trim", lean: "stringsTrim", args: []string{"String", "String"}, ret: "String"},
+			},
+			targets: []target{
+				{name: "util_SafeCmdExecution", fn: "SafeCmdExecution"},
+			}},
 		// the three sensor backends
 		&group{name: "SensorOps", dir: "internal/sensors", recvPath: "sensor",
 			errs: map[string]string{"fmt.Errorf(\"sensor %s: %s\"": "exec", "fmt.Errorf(\"sensor %s: command returned a non-finite": "non-finite"},
@@ -476,12 +587,20 @@ func (t *tr) goTyp(e ast.Expr) string {
 	if str(e) == "[]string" {
 		return "Array String"
 	}
+	if isIntType(str(e)) {
+		return "Int"
+	}
+	if str(e) == "map[int]int" {
+		return "Option (List (Int × Int))"
+	}
 	if st, ok := e.(*ast.StarExpr); ok {
 		switch str(st.X) {
 		case "int":
 			return "Option Int"
 		case "map[int]float64":
 			return "Option (List (Int × F64))"
+		case "map[int]int":
+			return "Option (List (Int × Int))"
 		}
 	}
 	fail("type `%s` is outside the supported subset", str(e))
@@ -515,6 +634,8 @@ func (t *tr) conv(e ex, to string, ctx ast.Node) string {
 	switch {
 	case e.ty == to:
 		return e.s
+	case to == "Option ("+e.ty+")" || to == "Option "+e.ty:
+		return "(some " + e.s + ")"
 	case e.ty == "const" && to == "F64":
 		return "(F64.ofInt " + e.s + ")"
 	case e.ty == "const" && to == "Int":
@@ -563,6 +684,9 @@ func isHandle(p string) bool {
 // error value denoted by an expression text (named error values, error constructors by text prefix)
 func errValue(txt string) (string, bool) {
 	for k, v := range cur.errs {
+		if strings.HasPrefix(k, "errors.New(") && txt == k {
+			return v, true
+		}
 		if txt == k || (strings.HasSuffix(k, "stuck") && strings.HasPrefix(txt, k)) || (strings.Contains(k, "(") && strings.HasPrefix(txt, k)) {
 			return v, true
 		}
@@ -576,8 +700,13 @@ func (t *tr) expr(e ast.Expr) ex {
 		return t.expr(e.X)
 	case *ast.BasicLit:
 		if e.Kind == token.INT {
+			if strings.HasPrefix(e.Value, "0o") {
+				if v, err := strconv.ParseInt(e.Value[2:], 8, 64); err == nil {
+					return ex{strconv.FormatInt(v, 10), "const"}
+				}
+			}
 			if _, err := strconv.ParseInt(e.Value, 10, 64); err != nil || (len(e.Value) > 1 && e.Value[0] == '0') {
-				fail("integer literal %s (only decimal literals)", e.Value)
+				fail("integer literal %s (only decimal and 0o literals)", e.Value)
 			}
 			return ex{e.Value, "const"}
 		}
@@ -639,6 +768,39 @@ func (t *tr) expr(e ast.Expr) ex {
 			return ex{d, "const"}
 		}
 		fail("line %d: selector %s (path %s) is neither a field of the record of operations nor a literal constant", line(e), str(e), p)
+	case *ast.CompositeLit:
+		if str(e) == "[]string{}" {
+			return ex{"(#[] : Array String)", "Array String"}
+		}
+		if str(e.Type) == "map[int]int" {
+			// a map literal with constant integer keys: the key-sorted association list
+			type kvp struct {
+				k int64
+				v string
+			}
+			var ps []kvp
+			for _, el := range e.Elts {
+				kv, ok := el.(*ast.KeyValueExpr)
+				if !ok {
+					fail("line %d: map literal `%s`", line(e), str(e))
+				}
+				k, err := strconv.ParseInt(str(kv.Key), 10, 64)
+				if err != nil {
+					fail("line %d: map literal key `%s`", line(e), str(kv.Key))
+				}
+				ps = append(ps, kvp{k, t.conv(t.expr(kv.Value), "Int", kv.Value)})
+			}
+			sort.Slice(ps, func(i, j int) bool { return ps[i].k < ps[j].k })
+			var items []string
+			for i, p := range ps {
+				if i > 0 && ps[i-1].k == p.k {
+					fail("line %d: duplicate key in map literal", line(e))
+				}
+				items = append(items, fmt.Sprintf("(%d, %s)", p.k, p.v))
+			}
+			return ex{"(some [" + strings.Join(items, ", ") + "])", "Option (List (Int × Int))"}
+		}
+		fail("line %d: composite literal `%s`", line(e), str(e))
 	case *ast.StarExpr:
 		in := t.expr(e.X)
 		if strings.HasPrefix(in.ty, "Option ") {
@@ -654,6 +816,10 @@ func (t *tr) expr(e ast.Expr) ex {
 		if e.Op == token.AND {
 			if str(e.X) == "map[int]float64{}" {
 				return ex{"(some [])", "Option (List (Int × F64))"}
+			}
+			if cl, ok := e.X.(*ast.CompositeLit); ok && str(cl.Type) == "map[int]int" {
+				t.note(e, "`%s`: a pointer to a map literal is carried as the map", str(e))
+				return t.expr(cl)
 			}
 			if id, ok := e.X.(*ast.Ident); ok && t.vars[id.Name] == "Int" {
 				t.note(e, "%s: pointer to an int variable becomes `some %s` (value semantics; the variable must not change afterwards)", str(e), id.Name)
@@ -731,11 +897,22 @@ func (t *tr) binary(e *ast.BinaryExpr) ex {
 	if l.ty == "const" {
 		ty = r.ty
 	}
+	if l.ty == "Option String" && r.ty == "Option String" && (e.Op == token.EQL || e.Op == token.NEQ) {
+		// comparison of error values: identity of sentinel errors is equality of their strings
+		t.note(e, "`%s`: comparing error values is comparing their strings", str(e))
+		op := map[token.Token]string{token.EQL: "=", token.NEQ: "≠"}[e.Op]
+		return ex{"(" + l.s + " " + op + " " + r.s + ")", "Prop"}
+	}
 	if ty != "Int" && ty != "F64" && ty != "const" {
 		fail("line %d: operands of `%s` (%s, %s)", line(e), str(e), l.ty, r.ty)
 	}
 	ls, rs := t.conv(l, ty, e.X), t.conv(r, ty, e.Y)
 	switch e.Op {
+	case token.AND:
+		if ty == "F64" {
+			fail("line %d: & on floats", line(e))
+		}
+		return ex{"(Go.land " + ls + " " + rs + ")", "Int"}
 	case token.ADD, token.SUB, token.MUL:
 		return ex{"(" + ls + " " + e.Op.String() + " " + rs + ")", ty}
 	case token.QUO:
@@ -780,7 +957,24 @@ func splitTuple(ty string) []string {
 	if ty == "Unit" {
 		return nil
 	}
-	return strings.Split(ty, " × ")
+	// split at top-level products only
+	var out []string
+	depth, last := 0, 0
+	rs := []rune(ty)
+	for i := 0; i < len(rs); i++ {
+		switch rs[i] {
+		case '(':
+			depth++
+		case ')':
+			depth--
+		case '×':
+			if depth == 0 {
+				out = append(out, strings.TrimSpace(string(rs[last:i])))
+				last = i + 1
+			}
+		}
+	}
+	return append(out, strings.TrimSpace(string(rs[last:])))
 }
 
 // call returns one ex per Go result; for a multi-result call the components of a bound tuple
@@ -788,7 +982,10 @@ func (t *tr) call(e *ast.CallExpr) []ex {
 	fun := str(e.Fun)
 	p := t.path(e.Fun)
 	if o := findOp(p); o != nil && !o.field {
-		a := t.args(e, o.args)
+		a := ""
+		if !o.ignoreArgs {
+			a = t.args(e, o.args)
+		}
 		s := "ops." + o.lean
 		if a != "" {
 			s += " " + a
@@ -800,6 +997,18 @@ func (t *tr) call(e *ast.CallExpr) []ex {
 			fail("line %d: conversion `%s`", line(e), str(e))
 		}
 		return t.expr(e.Args[0])
+	}
+	// fmt.Errorf("%s", err.Error()): a new error with the same text
+	if fun == "fmt.Errorf" && len(e.Args) == 2 && str(e.Args[0]) == `"%s"` {
+		if c, ok := e.Args[1].(*ast.CallExpr); ok && len(c.Args) == 0 {
+			if sel, ok := c.Fun.(*ast.SelectorExpr); ok && sel.Sel.Name == "Error" {
+				x := t.expr(sel.X)
+				if x.ty == "Option String" {
+					t.note(e, "`%s` is an error with the text of %s: the same error value (calling Error() on a nil error would panic: the translation is `deref`)", str(e), str(sel.X))
+					return []ex{{"(some (← Go.deref " + x.s + "))", "Option String"}}
+				}
+			}
+		}
 	}
 	if v, ok := errValue(str(e)); ok {
 		t.note(e, "error value `%s` is (some \"%s\") (DECLARED by the translator's table; the formatted text is not modelled)", strings.SplitN(str(e), ",", 2)[0], v)
@@ -833,6 +1042,20 @@ func (t *tr) call(e *ast.CallExpr) []ex {
 		}
 	}
 	switch {
+	case fun == "os.IsNotExist" && importDir(t.file, "os") == "<ext>os" && len(e.Args) == 1:
+		x := t.expr(e.Args[0])
+		if x.ty != "Option String" {
+			fail("line %d: os.IsNotExist on %s", line(e), x.ty)
+		}
+		t.note(e, "os.IsNotExist(_) is (_ = some \"notexist\"): not-exist errors are the error string \"notexist\"")
+		return []ex{{"(" + x.s + " = some \"notexist\")", "Prop"}}
+	case fun == "append" && len(e.Args) == 2 && !e.Ellipsis.IsValid():
+		a := t.expr(e.Args[0])
+		if !strings.HasPrefix(a.ty, "Array ") {
+			fail("line %d: append to %s", line(e), a.ty)
+		}
+		x := t.conv(t.expr(e.Args[1]), strings.TrimPrefix(a.ty, "Array "), e.Args[1])
+		return []ex{{"(" + a.s + ".push " + x + ")", a.ty}}
 	case fun == "math.IsNaN" && importDir(t.file, "math") == "<ext>math":
 		return []ex{{"(F64.isNaN " + t.conv(one(), "F64", e) + ")", "Bool"}}
 	case fun == "math.IsInf" && importDir(t.file, "math") == "<ext>math" && len(e.Args) == 2 && str(e.Args[1]) == "0":
@@ -885,6 +1108,13 @@ func (t *tr) call(e *ast.CallExpr) []ex {
 		}
 		t.note(e, "fans.ComputePwmBoundaries(fan) is Generated2.fans_ComputePwmBoundaries (transgen2) on the fan's own GetFanRpmCurveData() (dereferenced: nil panics) and GetStartPwm()")
 		return t.results1("(← Go.liftRes (Generated2.fans_ComputePwmBoundaries indef (← Go.deref (← HwMonFan_GetFanRpmCurveData indef ops)) (← HwMonFan_GetStartPwm indef ops) ()))", "Int × Int")
+	case fun == "string" && len(e.Args) == 1:
+		x := t.expr(e.Args[0])
+		if x.ty != "String" {
+			fail("line %d: string(%s)", line(e), x.ty)
+		}
+		t.note(e, "`%s`: a []byte read from outside is carried as a string", str(e))
+		return []ex{x}
 	case fun == "float64":
 		x := one()
 		switch x.ty {
@@ -906,6 +1136,13 @@ func (t *tr) call(e *ast.CallExpr) []ex {
 	case fun == "time.Now" && findOp("time.Now") != nil && len(e.Args) == 0:
 		t.note(e, "time.Now() is the operation `now` (nanoseconds)")
 		return []ex{{"(← ops.now)", "Int"}}
+	case (fun == "util.ExtractKeysWithDistinctValues" && importDir(t.file, "util") == "internal/util" && len(e.Args) == 1):
+		m := t.expr(e.Args[0])
+		if m.ty != "Option (List (Int × Int))" {
+			fail("line %d: ExtractKeysWithDistinctValues of %s", line(e), m.ty)
+		}
+		t.note(e, "util.ExtractKeysWithDistinctValues is Generated2.util_ExtractKeysWithDistinctValues (transgen2; a nil map ranges like an empty one), lifted into the state monad")
+		return []ex{{"(← Go.liftRes (Generated2.util_ExtractKeysWithDistinctValues indef (" + m.s + ".getD [])))", "Array Int"}}
 	case (fun == "util.FindClosest" && importDir(t.file, "util") == "internal/util"):
 		t.note(e, "util.FindClosest is Generated2.util_FindClosest (transgen2), lifted into the state monad")
 		return []ex{{"(← Go.liftRes (Generated2.util_FindClosest indef " + t.args(e, []string{"Int", "Array Int"}) + "))", "Int"}}
@@ -1052,6 +1289,48 @@ func (t *tr) isLog(c *ast.CallExpr) bool {
 	return false
 }
 
+// every statement nested in a block
+func allStmts(b *ast.BlockStmt) []ast.Stmt {
+	var out []ast.Stmt
+	ast.Inspect(b, func(n ast.Node) bool {
+		if s, ok := n.(ast.Stmt); ok {
+			out = append(out, s)
+		}
+		return true
+	})
+	return out
+}
+
+// an if statement whose branches contain nothing but logging calls
+func (t *tr) onlyLogs(is *ast.IfStmt) bool {
+	if is.Init != nil {
+		return false
+	}
+	blk := func(b *ast.BlockStmt) bool {
+		for _, x := range b.List {
+			es, ok := x.(*ast.ExprStmt)
+			if !ok {
+				return false
+			}
+			c, ok := es.X.(*ast.CallExpr)
+			if !ok || !t.isLog(c) {
+				return false
+			}
+		}
+		return true
+	}
+	if !blk(is.Body) {
+		return false
+	}
+	switch e := is.Else.(type) {
+	case nil:
+		return true
+	case *ast.BlockStmt:
+		return blk(e)
+	}
+	return false
+}
+
 // multi-value definition / assignment from a call
 func (t *tr) bindCall(lhs []ast.Expr, c *ast.CallExpr, define bool, n ast.Stmt) []string {
 	rs := t.call(c)
@@ -1099,6 +1378,15 @@ func (t *tr) sameScopeRedecl(name string) bool { return t.scopeOf[name] == t.lev
 
 func (t *tr) stmt(st ast.Stmt) []string {
 	ln := line(st)
+	for k, why := range cur.skips {
+		if strings.HasPrefix(str(st), k) {
+			if is, ok := st.(*ast.IfStmt); ok && !t.onlyLogs(is) {
+				fail("line %d: `%s` is declared to only log, but does more", ln, k)
+			}
+			t.note(st, "SKIPPED (DECLARED by the translator's table: %s): `%s`", why, k)
+			return nil
+		}
+	}
 	switch s := st.(type) {
 	case *ast.EmptyStmt:
 		return nil
@@ -1111,6 +1399,14 @@ func (t *tr) stmt(st ast.Stmt) []string {
 			if strings.HasSuffix(str(c.Fun), "Mu.Lock") || strings.HasSuffix(str(c.Fun), "Mu.Unlock") || strings.HasSuffix(str(c.Fun), ".mu.Lock") {
 				t.note(st, "SKIPPED (mutex; mutual exclusion is C20's subject): `%s`", str(st))
 				return nil
+			}
+			if o := findOp(t.path(c.Fun)); o != nil && o.inPlace && len(c.Args) == 1 {
+				id, ok := c.Args[0].(*ast.Ident)
+				if !ok || t.vars[id.Name] != o.ret {
+					fail("line %d: `%s`: in-place operation on something that is not a local %s", ln, str(st), o.ret)
+				}
+				t.note(st, "`%s` updates the slice in place: the variable takes the operation's result", str(st))
+				return []string{t.names[id.Name] + " := (← ops." + o.lean + " " + t.names[id.Name] + ")"}
 			}
 			rs := t.call(c)
 			if len(rs) == 1 && rs[0].ty == "Unit" {
@@ -1144,6 +1440,39 @@ func (t *tr) stmt(st ast.Stmt) []string {
 		}
 		fail("line %d: declaration `%s`", ln, str(st))
 	case *ast.AssignStmt:
+		if len(s.Lhs) == 1 && len(s.Rhs) == 1 && s.Tok == token.DEFINE {
+			if h, ok := cur.binders[str(s.Rhs[0])]; ok {
+				if id, isId := s.Lhs[0].(*ast.Ident); isId {
+					t.alias[id.Name] = h
+					delete(t.vars, id.Name)
+					t.note(st, "`%s`: %s stands for the handle `%s` from here on (DECLARED by the translator's table; a failing type assertion is outside the translation)", str(st), id.Name, h)
+					return nil
+				}
+			}
+		}
+		if len(s.Lhs) == 2 && len(s.Rhs) == 1 {
+			if c, ok := s.Rhs[0].(*ast.CallExpr); ok {
+				if h, ok := cur.hbinders[str(c.Fun)]; ok {
+					// `info, err := os.Stat(file)`: the first result is an interface handle, the operation yields the error
+					id0, ok0 := s.Lhs[0].(*ast.Ident)
+					id1, ok1 := s.Lhs[1].(*ast.Ident)
+					o := findOp(str(c.Fun))
+					if ok0 && ok1 && o != nil {
+						t.alias[id0.Name] = h
+						delete(t.vars, id0.Name)
+						t.note(st, "`%s`: %s stands for the handle `%s` (DECLARED by the translator's table); the operation `%s` yields the error", str(st), id0.Name, h, o.lean)
+						call := "(← ops." + o.lean + " " + t.args(c, o.args) + ")"
+						_, exists := t.vars[id1.Name]
+						if s.Tok == token.DEFINE && !(exists && t.sameScopeRedecl(id1.Name)) {
+							lean := t.declare(id1.Name, "Option String", st)
+							t.scopeOf[id1.Name] = t.level
+							return []string{"let mut " + lean + " : Option String := " + call}
+						}
+						return []string{t.names[id1.Name] + " := " + call}
+					}
+				}
+			}
+		}
 		if len(s.Lhs) == 2 && len(s.Rhs) == 1 && s.Tok == token.DEFINE {
 			if h, ok := cur.binders[str(s.Rhs[0])]; ok && str(s.Lhs[1]) == "_" {
 				id, isId := s.Lhs[0].(*ast.Ident)
@@ -1216,6 +1545,14 @@ func (t *tr) stmt(st ast.Stmt) []string {
 			}
 			return []string{t.names[id.Name] + " := " + t.conv(t.expr(rhs), ty, st)}
 		}
+		if ix, ok := s.Lhs[0].(*ast.IndexExpr); ok {
+			if id, ok := ix.X.(*ast.Ident); ok && t.vars[id.Name] == "Option (List (Int × Int))" && s.Tok == token.ASSIGN {
+				k := t.conv(t.expr(ix.Index), "Int", ix.Index)
+				v := t.conv(t.expr(rhs), "Int", rhs)
+				n := t.names[id.Name]
+				return []string{n + " := some (Go.mapPut (← Go.deref " + n + ") " + k + " " + v + ")"}
+			}
+		}
 		p := t.path(s.Lhs[0])
 		if o := findOp(p); o != nil && o.field && o.set {
 			v := t.expr(rhs)
@@ -1252,6 +1589,146 @@ func (t *tr) stmt(st ast.Stmt) []string {
 		return t.ifStmt(s)
 	case *ast.SwitchStmt:
 		return t.switchStmt(s)
+	case *ast.ForStmt:
+		// `for i := A; i >= B; i-- { ... }` with constant bounds and a body that leaves i alone: `for i in Go.downFrom A B do`
+		as, ok1 := s.Init.(*ast.AssignStmt)
+		be, ok2 := s.Cond.(*ast.BinaryExpr)
+		ps, ok3 := s.Post.(*ast.IncDecStmt)
+		if !ok1 || !ok2 || !ok3 || as.Tok != token.DEFINE || len(as.Lhs) != 1 || be.Op != token.GEQ || ps.Tok != token.DEC ||
+			str(be.X) != str(as.Lhs[0]) || str(ps.X) != str(as.Lhs[0]) {
+			fail("line %d: for statement `%s` (only `for i := A; i >= B; i--`)", ln, strings.SplitN(str(st), "{", 2)[0])
+		}
+		iv := str(as.Lhs[0])
+		from, to := t.expr(as.Rhs[0]), t.expr(be.Y)
+		if effectful(from.s) || effectful(to.s) {
+			fail("line %d: loop bounds with effects", ln)
+		}
+		for _, b := range allStmts(s.Body) {
+			if br, ok := b.(*ast.BranchStmt); ok {
+				fail("line %d: %s inside a for loop", line(b), br.Tok)
+			}
+			if a2, ok := b.(*ast.AssignStmt); ok {
+				for _, l := range a2.Lhs {
+					if str(l) == iv {
+						fail("line %d: the loop variable is assigned in the body", line(b))
+					}
+				}
+			}
+			if i2, ok := b.(*ast.IncDecStmt); ok && str(i2.X) == iv {
+				fail("line %d: the loop variable is changed in the body", line(b))
+			}
+		}
+		lv := ""
+		body := t.scoped(func() []string {
+			t.level++
+			defer func() { t.level-- }()
+			lv = t.declare(iv, "Int", st)
+			t.scopeOf[iv] = t.level
+			return t.block(s.Body.List)
+		})
+		out := []string{"for " + lv + " in Go.downFrom " + t.conv(from, "Int", as.Rhs[0]) + " " + t.conv(to, "Int", be.Y) + " do"}
+		return append(out, ind(body)...)
+	case *ast.TypeSwitchStmt:
+		// `switch x := <handle>.(type)`: the concrete type is an operation of the record (a tag), inside the cases x
+		// stands for the handle `<x>T`
+		as, ok := s.Assign.(*ast.AssignStmt)
+		if !ok || len(as.Lhs) != 1 || len(as.Rhs) != 1 || cur.typeSwitch == nil {
+			fail("line %d: type switch `%s`", ln, strings.SplitN(str(st), "{", 2)[0])
+		}
+		ta, ok := as.Rhs[0].(*ast.TypeAssertExpr)
+		if !ok || !isHandle(t.path(ta.X)) {
+			fail("line %d: type switch on `%s`", ln, str(as.Rhs[0]))
+		}
+		x := str(as.Lhs[0])
+		hname := strings.ReplaceAll(strings.TrimPrefix(t.path(ta.X), cur.recvPath+"."), ".", "_")
+		t.note(st, "type switch on %s: the concrete type is the operation typeTag_%s (tags %v, anything else -1); inside a case `%s` stands for the handle `%sT`",
+			t.path(ta.X), hname, cur.typeSwitch, x, hname)
+		tagv := fmt.Sprintf("__tag%d", ln)
+		out := []string{"let " + tagv + " : Int ← ops.typeTag_" + hname}
+		var build func(i int) []string
+		clauses := s.Body.List
+		var def []ast.Stmt
+		var arms []*ast.CaseClause
+		for _, c := range clauses {
+			cc := c.(*ast.CaseClause)
+			if cc.List == nil {
+				def = cc.Body
+				continue
+			}
+			arms = append(arms, cc)
+		}
+		inCase := func(body []ast.Stmt) []string {
+			return t.scoped(func() []string {
+				t.level++
+				defer func() { t.level-- }()
+				t.alias[x] = hname + "T"
+				delete(t.vars, x)
+				return t.block(body)
+			})
+		}
+		build = func(i int) []string {
+			if i == len(arms) {
+				for _, b := range def {
+					es, ok := b.(*ast.ExprStmt)
+					if !ok || !strings.HasPrefix(str(es.X), "fmt.Println(") {
+						fail("line %d: default clause of the type switch does more than print", line(b))
+					}
+					t.note(b, "SKIPPED (prints a message): `%s`", str(b))
+				}
+				return []string{"pure ()"}
+			}
+			var cs []string
+			for _, ty := range arms[i].List {
+				tag, ok := cur.typeSwitch[str(ty)]
+				if !ok {
+					fail("line %d: type switch case %s has no tag in the translator's table", line(ty), str(ty))
+				}
+				cs = append(cs, fmt.Sprintf("(%s = %d)", tagv, tag))
+			}
+			o := []string{"if " + strings.Join(cs, " ∨ ") + " then"}
+			o = append(o, ind(inCase(arms[i].Body))...)
+			o = append(o, "else")
+			o = append(o, ind(build(i+1))...)
+			return o
+		}
+		return append(out, build(0)...)
+	case *ast.RangeStmt:
+		// `for _, x := range xs { ... }` over a slice: Lean's `for x in xs do` (ForIn of Array in the monad GoM)
+		if s.Tok != token.DEFINE || s.Key == nil || str(s.Key) != "_" || s.Value == nil {
+			fail("line %d: range statement `%s` (only `for _, x := range xs`)", ln, strings.SplitN(str(st), "{", 2)[0])
+		}
+		id, ok := s.Value.(*ast.Ident)
+		if !ok {
+			fail("line %d: range value", ln)
+		}
+		xs := t.expr(s.X)
+		if !strings.HasPrefix(xs.ty, "Array ") {
+			fail("line %d: range over %s", ln, xs.ty)
+		}
+		for _, b := range allStmts(s.Body) {
+			if br, ok := b.(*ast.BranchStmt); ok {
+				fail("line %d: %s inside a range loop", line(b), br.Tok)
+			}
+		}
+		elt := strings.TrimPrefix(xs.ty, "Array ")
+		var out []string
+		arr := xs.s
+		if effectful(arr) {
+			tmp := fmt.Sprintf("__xs%d", ln)
+			out = append(out, "let "+tmp+" : "+xs.ty+" := "+arr)
+			arr = tmp
+		}
+		lv := ""
+		body := t.scoped(func() []string {
+			t.level++
+			defer func() { t.level-- }()
+			lv = t.declare(id.Name, elt, st)
+			t.scopeOf[id.Name] = t.level
+			return t.block(s.Body.List)
+		})
+		out = append(out, "for "+lv+" in "+arr+" do")
+		out = append(out, ind(body)...)
+		return out
 	}
 	fail("line %d: statement `%s` (%T)", ln, strings.SplitN(str(st), "{", 2)[0], st)
 	return nil
